@@ -371,6 +371,11 @@ func (c *Ctx) Finish(verifDir string, meta Meta, extra map[string]interface{}) i
 	}
 	nNontriv = len(distinct)
 	_ = nNontriv
+	if os.Getenv("VERIF_VERBOSE") != "" {
+		for _, o := range c.Obls {
+			fmt.Printf("  . %s rule=%s key=%s at %s: %s\n", o.Status, o.Rule, o.Key, o.Pos, o.Detail)
+		}
+	}
 	os.MkdirAll(filepath.Join(verifDir, "evidence", "replay"), 0o755)
 	replay := filepath.Join(verifDir, "evidence", "replay", c.Prop+".json")
 	if nViol > 0 {
